@@ -42,6 +42,15 @@ CHECKS = {
         note="index sets derived from the mask values by the check itself; non-interference among transformed outputs to 1e-12 (vector-kernel rounding), identity outputs bitwise",
         ref="DESIGN.md 4/C07",
     ),
+    "C08": dict(
+        technique="exhaustive enumeration of all wrapper programs (ASTs) up to a node bound and of all multiscale shapes/split dims/stage counts; oracle = hand-chained interpreter over the leaves and a nested-list routing model",
+        text="Every Composite/Inverse nesting with <=5 (thorough <=7) nodes over five pairwise non-commuting leaves is built from the library wrappers and run in both directions; outputs "
+        "must be bit-identical to an interpreter that only calls the leaves' own forward/inverse in the documented order, and log-dets must be the sum over the parts. "
+        "MultiscaleCompositeTransform is built for every input shape with <=3 dims of sizes 2..5, every split dimension and 1..3 stages (stage k multiplies by the k-th prime and adds 10^(k+1), so "
+        "each output encodes the stages it passed) and compared with a pure-Python model of the documented routing; inverse(forward(x)) must equal x exactly; invalid combinations and the documented misuse errors are checked.",
+        note="leaf alphabet of 5 transforms; integer tags make the multiscale comparison exact",
+        ref="DESIGN.md 4/C08",
+    ),
     "C09": dict(
         technique="bounded-exhaustive product exploration of the real spline functions on sorted grids concentrated on knots, ulp neighbours, end-points and the tail junction; invariant oracles (monotone, continuous, pinned end-points, exact containment, identity in tails)",
         text="All four spline families x bin counts 1..5 x three boxes and four tail bounds (1 .. 1000) x parameter patterns (all-zero up to strongly non-uniform) x float64/float32 x both "
